@@ -62,7 +62,13 @@ CoreKinds == SeqRange(CoreKindsSucc) \cup SeqRange(CoreKindsFail)
 \* gRPC status codes the statement does NOT declare benign
 GrpcBad == {4, 12, 13, 14, 15}   \* DeadlineExceeded, Unimplemented, Internal, Unavailable, DataLoss
 GrpcApis == {"grpc_codes", "grpc_client", "grpc_unary", "grpc_stream"}
-SqlApis == {"sql_exec", "sql_query", "sql_transact", "sql_prepare", "sql_stmt"}
+\* sqlx operations x connection flavour: plain (NewConn/NewConnFromDB), "@mysql" (the accept option
+\* every NewMySQL connection carries), "@custom" (a user-supplied accept option that accepts
+\* nothing extra).  An accept option may only ADD acceptable errors: the statement's benign
+\* outcomes are benign for every flavour.
+SqlApis == {"sql_exec", "sql_query", "sql_transact", "sql_prepare",
+            "sql_exec@mysql", "sql_query@mysql", "sql_transact@mysql", "sql_prepare@mysql",
+            "sql_exec@custom", "sql_query@custom", "sql_transact@custom", "sql_prepare@custom"}
 SqlBenign == {"nil", "norows", "txdone", "canceled"}
 RedisBenign == {"nil", "rednil", "canceled"}
 
